@@ -115,7 +115,11 @@ def check_file(conv_idx, op, table, column, header, sep, strict, passthrough, am
         new[column] = v if v is not None else ""
         expected.append(new)
     try:
-        getattr(conv, op)(path, column, sep=sep, header=bool(header), strict=strict, passthrough=passthrough, ambiguous=ambiguous)
+        from pathlib import Path
+
+        arg_path = Path(path) if column == 1 else path               # str and Path alike
+        arg_sep = None if (sep == "\t" and header is True) else sep   # the default separator is a tab
+        getattr(conv, op)(arg_path, column, sep=arg_sep, header=bool(header), strict=strict, passthrough=passthrough, ambiguous=ambiguous)
         exc = None
     except BaseException as e:  # noqa
         exc = e
